@@ -733,7 +733,16 @@ fn do_op(inst: &Inst, io: &Io, op: &[&str], orc: &mut Vec<(String, String)>) -> 
                     attr.st_size = 4 * op[2].parse::<i64>().unwrap_or(0);
                     valid = SetattrValid::SIZE;
                 }
-                fs.setattr(&ctx, ino, attr, None, valid).map_err(|e| errno(&e))?;
+                // `chmod,…,h`: fchmod-style — the client holds a handle from a READ-ONLY open of the
+                // file and passes it along (only regular files can be opened here)
+                if op[0] == "chmod" && op.get(3).copied() == Some("h") && k == 'f' {
+                    let (h, _, _) = fs.open(&ctx, ino, libc::O_RDONLY as u32, 0).map_err(|e| errno(&e))?;
+                    let r = fs.setattr(&ctx, ino, attr, h, valid).map_err(|e| errno(&e));
+                    let _ = fs.release(&ctx, ino, libc::O_RDONLY as u32, h.unwrap_or(0), false, false, None);
+                    r?;
+                } else {
+                    fs.setattr(&ctx, ino, attr, None, valid).map_err(|e| errno(&e))?;
+                }
                 Ok("ok".into())
             }
             "setx" | "rmx" | "getx" => {
@@ -1444,7 +1453,7 @@ fn gen_case(r: &mut Prng, prop: &str) -> String {
             format!("readlink,{}", rand_path(r, &known, 3))
         } else if k < 89 {
             let p = rand_path(r, &known, 3);
-            format!("chmod,{},{:o}", p, if r.chance(1, 2) { *r.pick(&DMODES) } else { *r.pick(&FMODES) })
+            format!("chmod,{},{:o}{}", p, if r.chance(1, 2) { *r.pick(&DMODES) } else { *r.pick(&FMODES) }, if r.chance(1, 3) { ",h" } else { "" })
         } else if k < 92 {
             format!("truncate,{},{}", rand_path(r, &known, 3), r.below(4))
         } else if k < 96 {
